@@ -67,7 +67,13 @@ class Kit:
         if g:
             cs['value'] = rng.choice(g)
         if rng.random() < self.cfg.get('p_attrs', 0.25):
-            cs['attrs'] = self.valid_attrs(name, rng.randint(1, 2))
+            cs['attrs'] = self.valid_attrs(name, rng.randint(1, 3))
+            if cs['attrs'] and rng.random() < 0.2:
+                extra = self.valid_attrs(name, 3)
+                for k in extra:
+                    if k not in cs['attrs']:
+                        cs['attrs'][k] = None       # a None keyword means "not set"
+                        break
         if not opaque:
             # checked child: give it what it requires so that it can serialise
             for a, d in spec.attributes_of_element(name).items():
@@ -158,7 +164,7 @@ def prog_history(kit, actor, doc, elem, cfg):
     sub = sub_alphabet(rng, model)
     shape = cfg.get('shape') or rng.choice(SHAPES)
     nsteps = cfg.get('nsteps') or rng.randint(3, 14)
-    wts = dict(add=6, add_bad=1.5, add_foreign=0.4, add_to_leaf=0.25, readd=0.5, remove_stale=0.25, weird=0.0,
+    wts = dict(add=6, add_bad=1.5, add_foreign=0.4, add_to_leaf=0.25, readd=0.5, remove_stale=0.25, weird=0.0, replace_raw=0.25,
                fwd=0.5, remove=2, replace=1, replace_other=0.4,
                dot_value=0.7, dot_element=0.6, dot_none=0.6, to_string=1.2, to_string_ic=0.5, check=0.5,
                check_ic=0.2, complete=0.8, read=0.6, attr=0.4, attr_bad=0.2, value_bad=0.2, remove_foreign=0.2,
@@ -310,6 +316,10 @@ def _one_random(kit, actor, doc, root, sub, wts, cfg):
             i = rng.randrange(len(node.children))
             yield {'op': 'REPLACE', 'a': actor, 'p': path, 'i': i, 'c': kit.childspec(node.children[i].name),
                    'by': 'pred' if rng.random() < 0.3 else 'ref'}
+    elif kind == 'replace_raw':
+        if node.children:
+            yield {'op': 'REPLACE', 'a': actor, 'p': path, 'i': rng.randrange(len(node.children)),
+                   'raw': rng.choice([None, 'text', 3, 2.5]), 'c': {'name': '?'}, 'fault': 'rej.not_an_element'}
     elif kind == 'replace_other':
         if node.children and sub:
             i = rng.randrange(len(node.children))
